@@ -179,6 +179,33 @@ def _unpack_plaintext(data: bytes) -> bytes:
         ) from exc
 
 
+def _decode_token(token: bytes) -> bytes:
+    """Strip a token's base64 armour, accepting only the canonical encoding.
+
+    ``b64decode(validate=True)`` rejects foreign characters and bad padding,
+    but it ignores the unused low bits of the last data character, so several
+    distinct strings decode to the same envelope.  Requiring the text to be
+    exactly what :func:`base64.b64encode` produces for the decoded bytes makes
+    the text-to-envelope mapping one-to-one: any modification of a minted
+    token's text is either refused here or yields a different envelope, which
+    the AEAD then refuses.
+
+    Args:
+        token: The base64 token text from the request metadata.
+
+    Returns:
+        The sealed envelope bytes.
+
+    Raises:
+        ValueError: If ``token`` is not the canonical base64 text of anything.
+
+    """
+    raw = base64.b64decode(token, validate=True)
+    if base64.b64encode(raw) != token:
+        raise ValueError("non-canonical base64")
+    return raw
+
+
 def _compute_call_aad(auth: AuthContext | None) -> bytes:
     r"""Build the AAD that binds a *call* token to its issuing principal.
 
@@ -328,7 +355,7 @@ def _open_call_token(
 
     """
     try:
-        raw = base64.b64decode(token, validate=True)
+        raw = _decode_token(token)
     except Exception as exc:
         raise _RpcHttpError(
             RuntimeError("Malformed call token"),
@@ -580,7 +607,7 @@ def _open_cursor_token(
 
     """
     try:
-        raw = base64.b64decode(token, validate=True)
+        raw = _decode_token(token)
     except Exception as exc:
         raise _RpcHttpError(
             RuntimeError("Malformed state token"),
